@@ -68,7 +68,7 @@ def main():
     tier = 'quick'
     if '--tier' in sys.argv:
         tier = sys.argv[sys.argv.index('--tier') + 1]
-    n = int(os.environ.get('VERIF_N', '0')) or (400 if tier == 'quick' else 12000)
+    n = int(os.environ.get('VERIF_N', '0')) or (800 if tier == 'quick' else 40000)
     chk = vlib.Check(PROP, tier)
     chk.rule = ('random core-grammar programs (gen_core, depth 2-5); each AST printed in 3 positions '
                 '(module + 2 of fn/method/lambda/fn with args) x canonical and wild layouts, every text run on '
